@@ -231,7 +231,8 @@ template <class P> static void caseThree(verif::Run& run, int bos, int x1, int x
     uint64_t oh = verif::hashPod(ang[0]); oh = verif::hashPod(ang[1], oh); oh = verif::hashPod(ang[2], oh);
     run.outcome(oh);
 
-    genericRotationChecks<P>(run, R, W, light);
+    // degenerate sequences produce exactly the rotations of the two-/one-angle families, which get the full set there
+    genericRotationChecks<P>(run, R, W, light || degenerate);
 
     // the same rotation after a trip through its quaternion: a valid rotation that is NOT bit-for-bit of
     // the product form the setter writes.  Its extraction is conditioned by 1/Rsum.
@@ -279,7 +280,7 @@ template <class P> static void caseTwo(verif::Run& run, int bos, int x1, int x2,
     }
     if (run.verbose) printf("%s\n  R = %s\n  Rref = %s\n  angles out = (%.17g, %.17g) round-trip err %.3g\n", W.s.c_str(), ref::str(Rm).c_str(), ref::str(Rref).c_str(), (double)ang[0], (double)ang[1], rt);
     run.outcome(verif::hashPod(ang[1], verif::hashPod(ang[0])));
-    genericRotationChecks<P>(run, R, W, true);
+    genericRotationChecks<P>(run, R, W, false);
 }
 
 // ---------------------------------------------------------------- section C: one angle about a coordinate axis
